@@ -54,6 +54,8 @@ type Program struct {
 
 	cg        *callgraph.Graph
 	effects   *Effects
+	reachReq  map[*ssa.Function]reachInfo
+	reachReg  map[*ssa.Function]reachInfo
 	modFuncs  []*ssa.Function // all functions (incl. anonymous) of module packages
 	nAllFuncs int
 }
